@@ -163,6 +163,8 @@ KIND_LAYOUTS = [
     [(2, False, False, "gen"), ("s", False, False)],                # a generator is not a Sequence
     [(2, True, False, "ndarray")],                                  # `values == "_"` is ambiguous
     [(3, False, False, "tuple"), (2, True, True, "tuple")],
+    [(3, False, False, "list"), (0, True, False, "list"), ("s", True, False)],   # an empty list AFTER a vector
+    [(2, True, True, "tuple"), (0, False, False, "tuple"), ("s", False, False)],
 ]
 # written as YAML and loaded by pyxel.configuration.loads
 YAML_LAYOUTS = [
